@@ -525,6 +525,35 @@ def _expr(name, spec, res):
             else:
                 res["inconclusive"].append(f"{label} entry {lab}: sat, not reproduced")
         if ci == 0 and nA:
+            # "ADDS to A[point][component][dof]": the increment from a symbolic initial A equals the value from a zero A
+            from .formcheck import split_parts as _sp
+
+            ctx2 = Ctx()
+            inp2 = uflref.Inputs(ctx2, nw, nc, nx, cm)
+            k0 = ksym.run_kernel(kern, ctx2, inp2, nA, entities=ents, perms=perm)
+            k1 = ksym.run_kernel(kern, ctx2, inp2, nA, entities=ents, perms=perm, symbolic_A0=True)
+            a0 = ksym.make_A0(ctx2, nA, cm, True)
+            notadd = None
+            for (lab, p0), (_, p1), (_, pa) in zip(_sp(k0.A), _sp(k1.A), _sp(a0)):
+                v_, _m = eqcheck.qident(ctx2, p1 - pa - p0, stats)
+                if v_ == "sat":
+                    notadd = lab
+                    break
+            if notadd is not None:
+                rng = np.random.RandomState(5)
+                env = {v.name: float(np.round(rng.uniform(0.3, 1.4), 3)) for v in ctx2.vars if v.defn is None and v.kind != "A0"}
+                w, cc, x = ksym.pack(inp2, env)
+                E = ksym.call_c_kernel(lib, kern, nA, w, cc, x, ents, perm, A0=np.zeros(nA))
+                A2 = ksym.call_c_kernel(lib, kern, nA, w, cc, x, ents, perm, A0=np.full(nA, 7.25))
+                d = np.abs((A2 - 7.25) - E)
+                if float(np.max(d)) > 1e-9 * max(1.0, float(np.max(np.abs(E)))):
+                    i_ = int(np.argmax(d))
+                    res["violations"].append({"key": f"{name}:A[{i_}]:not-added",
+                                              "what": f"expression kernel does not ADD the value to A: from A=0 it leaves {E[i_]!r}, from A=7.25 it leaves {A2[i_]!r} (expected {7.25 + E[i_]!r})",
+                                              "replay": {"kind": "expr_purity", "name": name, "scalar": scalar, "ents": list(ents), "perm": list(perm)}})
+                else:
+                    res["inconclusive"].append(f"{label}: increment differs symbolically at A[{notadd}] but not on the build")
+        if ci == 0 and nA:
             from .formcheck import split_parts, unify, coeff_scale, FLOOR_STRICT
             from fractions import Fraction
 
